@@ -65,6 +65,11 @@ def load_findings():
 
 
 def main(argv=None):
+    if argv is None and os.environ.get("PYTHONHASHSEED") != "0":
+        # string hashing is randomised per process; it changes the order in which terms are built and with it the solver's
+        # search.  A fixed seed makes the obligations' SMT text - and so the verdicts - reproducible from run to run.
+        os.environ["PYTHONHASHSEED"] = "0"
+        os.execv(sys.executable, [sys.executable, "-m", "pyvc.check"] + sys.argv[1:])
     ap = argparse.ArgumentParser()
     ap.add_argument("prop")
     ap.add_argument("--tier", default=os.environ.get("VERIF_TIER", "quick"))
